@@ -110,6 +110,11 @@ impl BBSplusPoKSignature {
         let D = parse_g1_projective(&bytes[96..144])
             .map_err(|_| Error::InvalidProofOfKnowledgeSignature)?;
 
+        // draft-08 octets_to_proof: Abar, Bbar and D must not be Identity_G1
+        if bool::from(Abar.is_identity()) || bool::from(Bbar.is_identity()) || bool::from(D.is_identity()) {
+            return Err(Error::InvalidProofOfKnowledgeSignature);
+        }
+
         let e_cap = Scalar::from_bytes_be(&bytes[144..176])
             .map_err(|_| Error::InvalidProofOfKnowledgeSignature)?;
         let r1_cap = Scalar::from_bytes_be(&bytes[176..208])
@@ -800,6 +805,17 @@ fn core_proof_verify<CS>(
 where
     CS: BbsCiphersuite,
 {
+    // a proof whose points are Identity_G1 is not a valid proof (it would satisfy
+    // the pairing check for any public key); also covers proofs built via serde
+    if bool::from(proof.Abar.is_identity())
+        || bool::from(proof.Bbar.is_identity())
+        || bool::from(proof.D.is_identity())
+    {
+        return Err(Error::PoKSVerificationError(
+            "Identity_G1 point in proof".to_owned(),
+        ));
+    }
+
     let init_res = proof_verify_init::<CS>(
         pk,
         proof,
